@@ -25,6 +25,8 @@ class DatasetAxes(Axes):
         self._ds = ds  # attached dataset
 
     def __setitem__(self, key, item):
+        if not isinstance(key, str):
+            key = self[key].name # position -> dimension name: the variables are looked up by name below
         super(DatasetAxes, self).__setitem__(key, item)
         # also apply the change to the contained DimArrays
         for k in self._ds.keys():
